@@ -329,7 +329,9 @@ func edgeDominates(pred, succ *ssa.BasicBlock) bool {
 }
 
 // factsAt returns the branch conditions established on every path to b.
-func factsAt(b *ssa.BasicBlock) []Fact {
+func factsAt(b *ssa.BasicBlock) []Fact { return expandFlags(factsAtRaw(b)) }
+
+func factsAtRaw(b *ssa.BasicBlock) []Fact {
 	var out []Fact
 	for a := b; a != nil; a = a.Idom() {
 		for _, p := range a.Preds {
@@ -350,6 +352,52 @@ func factsAt(b *ssa.BasicBlock) []Fact {
 		}
 	}
 	return out
+}
+
+// expandFlags handles the boolean-flag idiom (add := false; if c { add = true };
+// if add {...}): a fact about a phi of boolean constants that only one incoming
+// edge can satisfy implies the facts of that edge.
+func expandFlags(facts []Fact) []Fact {
+	seen := map[*ssa.Phi]bool{}
+	for i := 0; i < len(facts); i++ {
+		v, t := facts[i].Cond, facts[i].Truth
+		for {
+			if u, ok := v.(*ssa.UnOp); ok && u.Op == token.NOT {
+				v, t = u.X, !t
+				continue
+			}
+			break
+		}
+		phi, ok := v.(*ssa.Phi)
+		if !ok || seen[phi] {
+			continue
+		}
+		if b, ok := phi.Type().Underlying().(*types.Basic); !ok || b.Kind() != types.Bool {
+			continue
+		}
+		seen[phi] = true
+		cand := -1
+		n := 0
+		for j, e := range phi.Edges {
+			if c, ok := e.(*ssa.Const); ok && c.Value != nil && c.Value.Kind() == constant.Bool && constant.BoolVal(c.Value) != t {
+				continue
+			}
+			cand = j
+			n++
+		}
+		if n != 1 {
+			continue
+		}
+		pred := phi.Block().Preds[cand]
+		facts = append(facts, factsAtRaw(pred)...)
+		if ef, ok := edgeFact(pred, phi.Block()); ok {
+			facts = append(facts, ef)
+		}
+		if _, isConst := phi.Edges[cand].(*ssa.Const); !isConst {
+			facts = append(facts, Fact{Cond: phi.Edges[cand], Truth: t})
+		}
+	}
+	return facts
 }
 
 // factsAtInstr: facts holding when the instruction executes.
@@ -522,7 +570,22 @@ type RetPath struct {
 	Kind  RetKind
 	Call  ssa.CallInstruction // for RetForward
 	Val   ssa.Value
+	Edge  *Fact // branch taken from Block towards the phi, if Block ends in an If
 }
+
+// Facts returns the conditions established on this way of returning.
+func (r RetPath) Facts() []Fact {
+	f := factsAtRaw(r.Block)
+	if r.Edge != nil {
+		f = append(f, *r.Edge)
+	}
+	return expandFlags(f)
+}
+
+func (r RetPath) Atoms() []Atom { return atomsOf(r.Facts()) }
+
+// MayBeNil: the returned error can be nil on this path as far as the analysis knows.
+func (r RetPath) MayBeNil() bool { return r.Kind != RetFail }
 
 // returnPaths enumerates, for result slot idx, the distinct ways fn returns,
 // splitting phis into their incoming edges.
@@ -533,17 +596,30 @@ func returnPaths(fn *ssa.Function, idx int) []RetPath {
 			continue
 		}
 		r, ok := b.Instrs[len(b.Instrs)-1].(*ssa.Return)
-		if !ok || idx >= len(r.Results) {
+		if !ok || idx >= len(r.Results) || b == fn.Recover {
 			continue
 		}
 		seen := map[ssa.Value]bool{}
+		var curEdge *Fact
+		emit := func(rp RetPath) {
+			rp.Edge = curEdge
+			// a value known non-nil on this very path is a failure
+			if rp.Kind != RetFail && rp.Kind != RetNil {
+				for _, a := range rp.Atoms() {
+					if a.Kind == "isnil" && !a.Truth && stripConv(a.X) == stripConv(rp.Val) {
+						rp.Kind = RetFail
+					}
+				}
+			}
+			out = append(out, rp)
+		}
 		var walk func(v ssa.Value, blk *ssa.BasicBlock)
 		walk = func(v ssa.Value, blk *ssa.BasicBlock) {
 			v = stripConv(v)
 			switch x := v.(type) {
 			case *ssa.Const:
 				if x.IsNil() {
-					out = append(out, RetPath{Ret: r, Block: blk, Kind: RetNil, Val: v})
+					emit(RetPath{Ret: r, Block: blk, Kind: RetNil, Val: v})
 					return
 				}
 				if x.Value != nil && x.Value.Kind() == constant.Bool {
@@ -551,7 +627,7 @@ func returnPaths(fn *ssa.Function, idx int) []RetPath {
 					if constant.BoolVal(x.Value) {
 						k = RetNil
 					}
-					out = append(out, RetPath{Ret: r, Block: blk, Kind: k, Val: v})
+					emit(RetPath{Ret: r, Block: blk, Kind: k, Val: v})
 					return
 				}
 			case *ssa.Phi:
@@ -560,26 +636,33 @@ func returnPaths(fn *ssa.Function, idx int) []RetPath {
 				}
 				seen[v] = true
 				for i, e := range x.Edges {
-					walk(e, x.Block().Preds[i])
+					pred := x.Block().Preds[i]
+					saved := curEdge
+					curEdge = nil
+					if ifi, ok := pred.Instrs[len(pred.Instrs)-1].(*ssa.If); ok && pred.Succs[0] != pred.Succs[1] {
+						curEdge = &Fact{Cond: ifi.Cond, Truth: pred.Succs[0] == x.Block(), If: ifi}
+					}
+					walk(e, pred)
+					curEdge = saved
 				}
 				return
 			case *ssa.Call:
 				if isErrorCtor(x) {
-					out = append(out, RetPath{Ret: r, Block: blk, Kind: RetFail, Val: v})
+					emit(RetPath{Ret: r, Block: blk, Kind: RetFail, Val: v})
 					return
 				}
-				out = append(out, RetPath{Ret: r, Block: blk, Kind: RetForward, Call: x, Val: v})
+				emit(RetPath{Ret: r, Block: blk, Kind: RetForward, Call: x, Val: v})
 				return
 			case *ssa.Extract:
 				if c, ok := x.Tuple.(*ssa.Call); ok {
-					out = append(out, RetPath{Ret: r, Block: blk, Kind: RetForward, Call: c, Val: v})
+					emit(RetPath{Ret: r, Block: blk, Kind: RetForward, Call: c, Val: v})
 					return
 				}
 			case *ssa.UnOp:
 				if x.Op == token.MUL {
 					if g, ok := x.X.(*ssa.Global); ok && isErrorType(deref(g.Type())) {
 						// a package-level error variable: a failure value
-						out = append(out, RetPath{Ret: r, Block: blk, Kind: RetFail, Val: v})
+						emit(RetPath{Ret: r, Block: blk, Kind: RetFail, Val: v})
 						return
 					}
 				}
@@ -587,13 +670,25 @@ func returnPaths(fn *ssa.Function, idx int) []RetPath {
 			// a value known non-nil by a dominating fact
 			for _, a := range atomsOf(factsAt(blk)) {
 				if a.Kind == "isnil" && !a.Truth && stripConv(a.X) == v {
-					out = append(out, RetPath{Ret: r, Block: blk, Kind: RetFail, Val: v})
+					emit(RetPath{Ret: r, Block: blk, Kind: RetFail, Val: v})
 					return
 				}
 			}
-			out = append(out, RetPath{Ret: r, Block: blk, Kind: RetUnknown, Val: v})
+			emit(RetPath{Ret: r, Block: blk, Kind: RetUnknown, Val: v})
 		}
-		walk(r.Results[idx], b)
+		res := r.Results[idx]
+		// defer-spilled result: *t0 = v; rundefers; t = *t0; return t
+		if u, ok := res.(*ssa.UnOp); ok && u.Op == token.MUL {
+			if a, ok := u.X.(*ssa.Alloc); ok && u.Block() == b {
+				for i := instrIndex(u) - 1; i >= 0; i-- {
+					if st, ok := b.Instrs[i].(*ssa.Store); ok && st.Addr == a {
+						res = st.Val
+						break
+					}
+				}
+			}
+		}
+		walk(res, b)
 	}
 	return out
 }
@@ -1007,4 +1102,304 @@ func isLocalAlloc(v ssa.Value) bool {
 			return false
 		}
 	}
+}
+
+// ---------------------------------------------------------------- access paths
+
+// samePath: a and b denote the same storage read or the same value: identical
+// SSA values, or loads through the same chain of fields from the same root
+// (stores in between are not tracked: used only for values that are written
+// once per iteration, such as range variables), or calls of the same method on
+// the same receiver path with no arguments (pure accessors).
+func samePath(a, b ssa.Value) bool {
+	a, b = stripConv(a), stripConv(b)
+	if a == b {
+		return true
+	}
+	switch x := a.(type) {
+	case *ssa.UnOp:
+		y, ok := b.(*ssa.UnOp)
+		if !ok || x.Op != y.Op {
+			return false
+		}
+		return samePath(x.X, y.X)
+	case *ssa.FieldAddr:
+		y, ok := b.(*ssa.FieldAddr)
+		return ok && x.Field == y.Field && samePath(x.X, y.X)
+	case *ssa.Field:
+		y, ok := b.(*ssa.Field)
+		return ok && x.Field == y.Field && samePath(x.X, y.X)
+	case *ssa.IndexAddr:
+		y, ok := b.(*ssa.IndexAddr)
+		return ok && samePath(x.X, y.X) && samePath(x.Index, y.Index)
+	case *ssa.Const:
+		y, ok := b.(*ssa.Const)
+		return ok && x.Value != nil && y.Value != nil && constant.Compare(x.Value, token.EQL, y.Value)
+	case *ssa.Call:
+		y, ok := b.(*ssa.Call)
+		if !ok {
+			return false
+		}
+		ox, oy := calleeObj(x), calleeObj(y)
+		if ox == nil || !sameFunc(ox, oy) {
+			return false
+		}
+		ax, ay := x.Call.Args, y.Call.Args
+		if x.Call.IsInvoke() {
+			if !samePath(x.Call.Value, y.Call.Value) {
+				return false
+			}
+		}
+		if len(ax) != len(ay) || len(callArgs(x)) != 0 {
+			return false
+		}
+		for i := range ax {
+			if !samePath(ax[i], ay[i]) {
+				return false
+			}
+		}
+		return true
+	}
+	return false
+}
+
+// ---------------------------------------------------------------- provenance
+
+// Source is a leaf of a backward slice.
+type Source struct {
+	Kind  string // "field", "param", "call", "global", "const", "other"
+	Field *types.Var
+	Owner string // declaring struct of Field
+	Call  *ssa.Call
+	Val   ssa.Value
+}
+
+func (s Source) String() string {
+	switch s.Kind {
+	case "field":
+		return "field " + s.Owner + "." + s.Field.Name()
+	case "call":
+		if o := calleeObj(s.Call); o != nil {
+			return "result of " + o.Name()
+		}
+		return "result of a dynamic call"
+	case "param":
+		return "parameter " + s.Val.Name()
+	case "global":
+		return "global " + s.Val.Name()
+	}
+	return s.Kind
+}
+
+// sourcesOf collects the leaves v is computed from. Field loads are leaves
+// (their base is not followed); parameters are followed to the arguments at
+// every static call site in the repository (depth-bounded); calls are leaves
+// unless through returns true for them, in which case their arguments are followed.
+func (w *World) sourcesOf(v ssa.Value, depth int, through func(*ssa.Call) bool) []Source {
+	var out []Source
+	seen := map[ssa.Value]bool{}
+	var walk func(v ssa.Value, d int)
+	walk = func(v ssa.Value, d int) {
+		if v == nil || seen[v] {
+			return
+		}
+		seen[v] = true
+		switch x := v.(type) {
+		case *ssa.Const:
+			out = append(out, Source{Kind: "const", Val: v})
+			return
+		case *ssa.Global:
+			out = append(out, Source{Kind: "global", Val: v})
+			return
+		case *ssa.Function, *ssa.Builtin:
+			return
+		case *ssa.Parameter:
+			if d <= 0 {
+				out = append(out, Source{Kind: "param", Val: v})
+				return
+			}
+			fn := x.Parent()
+			idx := -1
+			for i, p := range fn.Params {
+				if p == x {
+					idx = i
+				}
+			}
+			sites := w.Callers(fn)
+			if len(sites) == 0 || idx < 0 {
+				out = append(out, Source{Kind: "param", Val: v})
+				return
+			}
+			for _, cs := range sites {
+				args := cs.Common().Args
+				if idx < len(args) {
+					walk(args[idx], d-1)
+				}
+			}
+			return
+		case *ssa.Field:
+			f := structField(x.X.Type(), x.Field)
+			out = append(out, Source{Kind: "field", Field: f, Owner: ownerName(x.X.Type()), Val: v})
+			return
+		case *ssa.UnOp:
+			if x.Op == token.MUL {
+				if fa, ok := x.X.(*ssa.FieldAddr); ok {
+					out = append(out, Source{Kind: "field", Field: fieldOfAddr(fa), Owner: ownerName(fa.X.Type()), Val: v})
+					return
+				}
+				if a, ok := x.X.(*ssa.Alloc); ok {
+					for _, r := range *a.Referrers() {
+						if st, ok := r.(*ssa.Store); ok && st.Addr == a {
+							walk(st.Val, d)
+						}
+					}
+					return
+				}
+				if _, ok := x.X.(*ssa.Global); ok {
+					out = append(out, Source{Kind: "global", Val: x.X})
+					return
+				}
+			}
+		case *ssa.Call:
+			if bi, ok := x.Call.Value.(*ssa.Builtin); ok {
+				_ = bi
+				for _, a := range x.Call.Args {
+					walk(a, d)
+				}
+				return
+			}
+			if through != nil && through(x) {
+				if x.Call.IsInvoke() {
+					walk(x.Call.Value, d)
+				}
+				for _, a := range x.Call.Args {
+					walk(a, d)
+				}
+				return
+			}
+			out = append(out, Source{Kind: "call", Call: x, Val: v})
+			return
+		case *ssa.Extract:
+			walk(x.Tuple, d)
+			return
+		}
+		if in, ok := v.(ssa.Instruction); ok {
+			ops := in.Operands(nil)
+			if len(ops) == 0 {
+				out = append(out, Source{Kind: "other", Val: v})
+			}
+			for _, op := range ops {
+				if op != nil && *op != nil {
+					walk(*op, d)
+				}
+			}
+			return
+		}
+		out = append(out, Source{Kind: "other", Val: v})
+	}
+	walk(v, depth)
+	return out
+}
+
+func ownerName(t types.Type) string {
+	if p, ok := t.Underlying().(*types.Pointer); ok {
+		t = p.Elem()
+	}
+	if n, ok := t.(*types.Named); ok {
+		return n.Obj().Name()
+	}
+	return ""
+}
+
+func ownerPkg(t types.Type) string {
+	if p, ok := t.Underlying().(*types.Pointer); ok {
+		t = p.Elem()
+	}
+	if n, ok := t.(*types.Named); ok && n.Obj().Pkg() != nil {
+		return n.Obj().Pkg().Path()
+	}
+	return ""
+}
+
+// allPathsPassEdge: every path from the entry to target traverses a CFG edge
+// accepted by good.
+func allPathsPassEdge(fn *ssa.Function, target *ssa.BasicBlock, good func(from, to *ssa.BasicBlock) bool) bool {
+	seen := map[*ssa.BasicBlock]bool{}
+	work := []*ssa.BasicBlock{fn.Blocks[0]}
+	for len(work) > 0 {
+		b := work[len(work)-1]
+		work = work[:len(work)-1]
+		if seen[b] {
+			continue
+		}
+		seen[b] = true
+		if b == target {
+			return false
+		}
+		for _, s := range b.Succs {
+			if good(b, s) {
+				continue
+			}
+			work = append(work, s)
+		}
+	}
+	return true
+}
+
+// edgeFact gives the condition established by taking the edge from→to.
+func edgeFact(from, to *ssa.BasicBlock) (Fact, bool) {
+	ifi, ok := from.Instrs[len(from.Instrs)-1].(*ssa.If)
+	if !ok || from.Succs[0] == from.Succs[1] {
+		return Fact{}, false
+	}
+	return Fact{Cond: ifi.Cond, Truth: from.Succs[0] == to, If: ifi}, true
+}
+
+// flagPreds returns the blocks whose execution is implied by boolean-flag facts
+// holding at b (see expandFlags): the unique predecessor that can give the
+// flag the tested value.
+func flagPreds(b *ssa.BasicBlock) []*ssa.BasicBlock {
+	var out []*ssa.BasicBlock
+	for _, f := range factsAtRaw(b) {
+		v, t := f.Cond, f.Truth
+		for {
+			if u, ok := v.(*ssa.UnOp); ok && u.Op == token.NOT {
+				v, t = u.X, !t
+				continue
+			}
+			break
+		}
+		phi, ok := v.(*ssa.Phi)
+		if !ok {
+			continue
+		}
+		cand, n := -1, 0
+		for j, e := range phi.Edges {
+			if c, ok := e.(*ssa.Const); ok && c.Value != nil && c.Value.Kind() == constant.Bool && constant.BoolVal(c.Value) != t {
+				continue
+			}
+			cand = j
+			n++
+		}
+		if n == 1 {
+			out = append(out, phi.Block().Preds[cand])
+		}
+	}
+	return out
+}
+
+// passedBefore: like mustPassBefore, but also accepts gates that lie in (or
+// dominate) a block implied by a boolean flag tested on the way to site.
+func passedBefore(site ssa.Instruction, gates []ssa.Instruction) bool {
+	if mustPassBefore(site, gates) {
+		return true
+	}
+	for _, p := range flagPreds(site.Block()) {
+		for _, g := range gates {
+			if g.Block() == p || g.Block().Dominates(p) {
+				return true
+			}
+		}
+	}
+	return false
 }
